@@ -11,6 +11,8 @@ import zlib
 
 import common
 
+NOGEN = dict(GenNames=set(), GenAttrIdx=set(), GenEnds=set(), GenBodyIdx=set(), GenOpaqueIdx=set(), GenOBodyIdx=set())
+
 QUICK = [False]
 
 
@@ -134,10 +136,10 @@ def run(out):
     out.assumptions = ['not judged (statement silent): get_open_tag inside a closing tag; select_item_css next strictly inside a declaration '
                        'head; declarations not terminated by a semicolon for select_item_css',
                        'a value with a semicolon inside parentheses is known finding F16 (one small instance)']
-    hin = [('html-exhaustive', dict(constants={'MaxSeg': 3 if quick else 4, 'MaxDepth': 3, 'SegIdx': set(range(1, 29)), 'XmlModes': {False}})),
+    hin = [('html-exhaustive', dict(constants={'MaxSeg': 3 if quick else 4, 'MaxDepth': 3, 'SegIdx': set(range(1, 29)), 'XmlModes': {False}, **NOGEN})),
            ('html-class-and-attributes', dict(constants={'MaxSeg': 4 if quick else 6, 'MaxDepth': 2, 'SegIdx': {2, 3, 5, 20, 21, 22} if quick else {3, 5, 20, 21, 22},
-                                                         'XmlModes': {False}})),
-           ('html-simulated', dict(constants={'MaxSeg': 14 if quick else 25, 'MaxDepth': 6, 'SegIdx': set(range(1, 29)), 'XmlModes': {False}},
+                                                         'XmlModes': {False}, **NOGEN})),
+           ('html-simulated', dict(constants={'MaxSeg': 14 if quick else 25, 'MaxDepth': 6, 'SegIdx': set(range(1, 29)), 'XmlModes': {False}, **NOGEN},
                                    simulate=3 if quick else 60, depth=15 if quick else 26, seed=out.seed))]
     base = dict(MaxDepth=3, Fillers={" ", "/* {;:} */", "NL", "C2"}, Loose=True, SemiInParens=False, NoSemi=False)
     cin = [('css-exhaustive', dict(constants=dict(base, MaxSeg=3 if quick else 4, SelIdx={1, 2, 3, 5} if quick else {1, 2, 3}, ValIdx={1, 2, 3, 4}, NameIdx={1, 2}))),
